@@ -201,7 +201,7 @@ class Check(core.CheckBase):
         if self.mine(index):
             yield {'kind': 'edge_values'}
         for family in ('tls', 'ssh', 'dns', 'opp'):
-            for block in range(2 if self.tier == 'quick' else 24):
+            for block in range(6 if self.tier == 'quick' else 48):
                 index += 1
                 if self.mine(index):
                     yield {'kind': 'generated', 'family': family, 'block': block}
